@@ -1,107 +1,286 @@
 ------------------------------- MODULE MapGen -------------------------------
 (***************************************************************************)
-(* Structured generator of map-shaped datafiles (doc/map.md item layouts:  *)
-(* version, info, images, envelope, groups, layers (tilemap / quads /      *)
-(* sounds), envelope points, sound).  Every generated file is a WELL-FORMED *)
-(* datafile (laid out by Datafile!Layout); what is swept is the content of *)
-(* the map items: every word of every item over boundary values (index     *)
-(* fields: -2, -1, 0 .. one past the end, MIN, MAX; versions, flags and    *)
-(* layer types over their whole small ranges), every item truncated to     *)
-(* every shorter length, and selected pairs of fields.                     *)
+(* Generator of map-shaped datafiles and of what the map reader must       *)
+(* answer on them (Map.tla).                                               *)
 (*                                                                         *)
-(* The map layer has no specification beyond index validity: TLC is a      *)
-(* generator here, the claim is "total on everything generated", and the   *)
-(* recorded calls are judged by MapTrace.tla (no panic/hang; every index    *)
-(* handed out lies inside the range it refers to).                         *)
+(* A profile p (a record of small choices: item versions of info / image / *)
+(* envelope / group / tilemap / quads / sounds layer, which DDNet physics  *)
+(* layers exist, clipping, detail, external image, colour envelope, names, *)
+(* dimensions ...) is turned into a typed, WELL-FORMED abstract map        *)
+(* MkMap(p); Map!MapDf lays it out as items and data blocks.  Initial      *)
+(* states: the base profiles (a DDNet map, a vanilla 0.7-style map, an old *)
+(* race map with version 1 groups and version 2 tilemaps) and every        *)
+(* single-choice deviation from them, in both datafile versions.  One      *)
+(* step: one corruption of the laid-out map of a base profile: every word  *)
+(* of every item over boundary values, every truncation of every item,     *)
+(* data blocks shortened, selected pairs of fields.                        *)
+(*                                                                         *)
+(* Laws checked in every state (invariant Emit):                           *)
+(*   * a well-formed map is read back exactly as stored:                   *)
+(*       StoredAgree(T, Calls(RofDf(MapDf(T)))) /\ MapValid                *)
+(*   * the laid-out file is a well-formed datafile with that content       *)
+(*       (Datafile!Read o FileBytes o Layout) -- on the uncorrupted maps,  *)
+(*       truncations and shortened data blocks;                            *)
+(*   * totality: every expected call is in {ok, err} (TLC would stop on    *)
+(*     any out-of-domain application inside the reader operators).         *)
+(* Each state is printed as a case: the layout, the expected calls         *)
+(* (accessor, argument, ok/err, value), the expected item parts, wf, valid.*)
 (***************************************************************************)
-EXTENDS Datafile, Json
+EXTENDS Map, Json
 
-CONSTANTS Versions, Pairs
+CONSTANTS Versions,     \* datafile versions
+          Variants,     \* BOOLEAN: also every single-choice deviation of the base profiles
+          SweepLevel,   \* 0: no corruptions, 1: reduced value set on the secondary profiles, 2: full
+          Pairs         \* BOOLEAN: pair sweeps
 
-VARIABLES v, sw
-vars == << v, sw >>
+VARIABLES v, p, sw
+vars == << v, p, sw >>
 
-N3 == << 0, 0, 0 >>
+----------------------------------------------------------------------------
+(* profiles *)
 
-\* group 0 = layers 0..2 (game tilemap, quads, teleport tilemap), group 1 = layer 3 (a normal
-\* tilemap with image and colour envelope); the five trailing words of a tilemap are the DDNet
-\* extension indices tele, speedup, front, switch, tune
-BaseItems == <<
-  [t |-> 0, id |-> 0, w |-> << 1 >>],
-  [t |-> 1, id |-> 0, w |-> << 1, 0, -1, -1, -1, 4 >>],
-  [t |-> 2, id |-> 0, w |-> << 1, 2, 2, 0, 1, 2 >>],
-  [t |-> 2, id |-> 1, w |-> << 1, 2, 2, 1, 1, -1 >>],
-  [t |-> 3, id |-> 0, w |-> << 2, 4, 0, 1, 0, 0, 0, 0, 0, 0, 0, 0, 0 >>],
-  [t |-> 4, id |-> 0, w |-> << 3, 0, 0, 100, 100, 0, 3, 0, 0, 0, 0, 0 >> \o N3],
-  [t |-> 4, id |-> 1, w |-> << 3, 0, 0, 100, 100, 3, 1, 1, 0, 0, 64, 64 >> \o N3],
-  [t |-> 5, id |-> 0, w |-> << 0, 2, 0, 3, 2, 2, 1, 255, 255, 255, 255, -1, 0, -1, 3 >> \o N3 \o << 5, 6, 3, 3, 5 >>],
-  [t |-> 5, id |-> 1, w |-> << 0, 3, 1, 2, 1, 2, 0 >> \o N3],
-  [t |-> 5, id |-> 2, w |-> << 0, 2, 0, 3, 2, 2, 2, 255, 255, 255, 255, -1, 0, -1, 3 >> \o N3 \o << 5, 6, 3, 3, 5 >>],
-  [t |-> 5, id |-> 3, w |-> << 0, 2, 1, 3, 2, 2, 0, 255, 128, 0, 255, 0, 0, 0, 3 >> \o N3],
-  [t |-> 6, id |-> 0, w |-> << 0, 0, 1024, 0, 0, 0 >>],
-  [t |-> 7, id |-> 0, w |-> << 1, 0, 1, 2, 16 >>] >>
+AllPhys == {"tele", "speedup", "front", "switch", "tune"}
+PhysFlag(k) == CASE k = "tele" -> 2 [] k = "speedup" -> 4 [] k = "front" -> 8 [] k = "switch" -> 16 [] k = "tune" -> 32
+PhysOrder == << "tele", "speedup", "front", "switch", "tune" >>
 
-\* 0 author string, 1 image name, 2 image / quads data, 3 tiles (2x2x4 bytes), 4 settings,
-\* 5 tele / tune tiles (2x2x2), 6 speedup tiles (2x2x6)
-BaseData == <<
-  << 97, 0 >>,
-  << 105, 109, 103, 0 >>,
-  << 1, 2, 3, 4, 5, 6, 7, 8, 9, 10, 11, 12, 13, 14, 15, 16 >>,
-  << 1, 0, 0, 0, 0, 0, 0, 0, 3, 0, 0, 0, 0, 0, 0, 0 >>,
-  << 120, 0, 121, 122, 0 >>,
-  << 1, 26, 0, 0, 2, 27, 0, 0 >>,
-  << 1, 2, 28, 0, 90, 0, 0, 0, 0, 0, 0, 0, 0, 0, 0, 0, 0, 0, 0, 0, 0, 0, 0, 0 >>,
-  << >> >>       \* 7: a zero-length block (every index field is swept onto it: SweepVals has 7)
+NameGame == << 71, 97, 109, 101 >>
+NameFull == << 255, 128, 1, 127, 200, 65, 66, 67, 68, 69, 70 >>      \* 11 bytes, high and low values
 
-BaseTypes == << 0, 1, 2, 3, 4, 5, 6, 7 >>
+Ddnet == [ info |-> "full", imgv |-> 1, ext0 |-> FALSE, ev |-> "2", npts |-> 2, gv |-> 3, clip |-> TRUE,
+           tv |-> 3, qv |-> 2, sl |-> "v2", phys |-> AllPhys, x5 |-> TRUE, dim |-> << 2, 2 >>,
+           detail |-> 1, env |-> TRUE, img |-> TRUE, name |-> NameGame, off |-> 0,
+           color |-> << 255, 128, 0, 255 >>, nq |-> 0, ns |-> 0, garbage |-> -1 ]
 
-SweepVals == {-2, -1, 0, 1, 2, 3, 4, 5, 6, 7, 8, 9, 10, 16, 32, 64, 255, 256, MINI, MAXI}
+Vanilla == [ info |-> "nos", imgv |-> 2, ext0 |-> FALSE, ev |-> "3", npts |-> 1, gv |-> 3, clip |-> FALSE,
+             tv |-> 3, qv |-> 2, sl |-> "none", phys |-> {}, x5 |-> FALSE, dim |-> << 3, 2 >>,
+             detail |-> 0, env |-> FALSE, img |-> TRUE, name |-> NameFull, off |-> 0,
+             color |-> << 255, 255, 255, 255 >>, nq |-> 1, ns |-> 0, garbage |-> 0 ]
+
+OldRace == [ info |-> "min", imgv |-> 1, ext0 |-> TRUE, ev |-> "1l", npts |-> 0, gv |-> 1, clip |-> FALSE,
+             tv |-> 2, qv |-> 1, sl |-> "legacy", phys |-> {"tele", "speedup"}, x5 |-> TRUE, dim |-> << 1, 1 >>,
+             detail |-> 0, env |-> TRUE, img |-> FALSE, name |-> << >>, off |-> 0,
+             color |-> << 0, 0, 0, 0 >>, nq |-> 0, ns |-> 1, garbage |-> 305419896 ]
+
+BaseProfiles == << Ddnet, Vanilla, OldRace >>
+
+ChoiceDom == [ info |-> {"min", "nos", "full"}, imgv |-> {1, 2}, ext0 |-> BOOLEAN, ev |-> {"1l", "1", "2", "3"},
+             npts |-> {0, 1, 2}, gv |-> {1, 2, 3}, clip |-> BOOLEAN, tv |-> {2, 3}, qv |-> {1, 2},
+             sl |-> {"none", "legacy", "v2"},
+             phys |-> {{}, AllPhys, {"tele"}, {"speedup"}, {"front"}, {"switch"}, {"tune"}},
+             x5 |-> BOOLEAN, dim |-> {<< 1, 1 >>, << 2, 2 >>, << 3, 2 >>, << 1, 3 >>}, detail |-> {0, 1},
+             env |-> BOOLEAN, img |-> BOOLEAN, name |-> {<< >>, NameGame, NameFull}, off |-> {0, MINI, MAXI},
+             color |-> {<< 0, 0, 0, 0 >>, << 255, 255, 255, 255 >>, << 255, 128, 0, 1 >>}, nq |-> {0, 1, 2},
+             ns |-> {0, 1}, garbage |-> {-1, 0, MINI} ]
+
+VariantsOf(b) ==
+  {b} \cup UNION { { [b EXCEPT ![f] = x] : x \in ChoiceDom[f] } : f \in DOMAIN ChoiceDom }
+
+----------------------------------------------------------------------------
+(* profile -> typed well-formed map *)
+
+PatBytes(seed, n) == Strict([j \in 1..n |-> (seed * 31 + j * 7) % 256])
+
+\* the data table: key, present?, typed entry; indices are positions among the present ones
+Blocks(q) ==
+  LET w == q.dim[1] h == q.dim[2] n == w * h
+      Str(s) == [k |-> "str", s |-> s, cmds |-> << >>, b |-> << >>]
+      Byt(b) == [k |-> "bytes", s |-> << >>, cmds |-> << >>, b |-> b]
+      B(key, on, e) == [key |-> key, on |-> on, e |-> e]
+      strs == q.info # "min"
+      snd == q.sl # "none"
+      srcsize == IF q.sl = "legacy" THEN 36 ELSE 52
+  IN << B("author", strs, Str(<< 97 >>)),
+        B("mapver", strs, Str(<< 49, 46, 48 >>)),
+        B("credits", strs, Str(<< >>)),
+        B("license", strs, Str(<< 77, 73, 84 >>)),
+        B("settings", q.info = "full",
+          [k |-> "settings", s |-> << >>, cmds |-> << << 120 >>, << 121, 32, 49 >>, << >> >>, b |-> << >>]),
+        B("img0name", TRUE, Str(<< 105, 109, 103 >>)),
+        B("img0pix", ~q.ext0, Byt(PatBytes(1, 16))),
+        B("img1name", TRUE, Str(<< 103, 114, 97, 115, 115, 95, 109, 97, 105, 110 >>)),
+        B("game", TRUE, Byt(PatBytes(2, 4 * n))),
+        B("zero", q.phys # {}, Byt(Zeros(4 * n))),
+        B("tele", "tele" \in q.phys, Byt(PatBytes(3, 2 * n))),
+        B("speedup", "speedup" \in q.phys, Byt(PatBytes(4, 6 * n))),
+        B("front", "front" \in q.phys, Byt(PatBytes(5, 4 * n))),
+        B("switch", "switch" \in q.phys, Byt(PatBytes(6, 4 * n))),
+        B("tune", "tune" \in q.phys, Byt(PatBytes(7, 2 * n))),
+        B("tiles", TRUE, Byt(PatBytes(8, 4 * n))),
+        B("quads", TRUE, Byt(PatBytes(9, 152 * q.nq))),
+        B("sources", snd, Byt(PatBytes(10, srcsize * q.ns))),
+        B("snd0name", snd, Str(<< 115 >>)),
+        B("snd0data", snd, Byt(<< 79, 103, 103, 83, 0 >>)),
+        B("empty", TRUE, Byt(<< >>)) >>
+
+DIdx(q, key) ==
+  LET bs == Blocks(q)
+      pos == CHOOSE j \in 1..Len(bs) : bs[j].key = key
+  IN IF ~bs[pos].on THEN -1 ELSE Cardinality({j \in 1..(pos - 1) : bs[j].on})
+
+MkMap(q) ==
+  LET w == q.dim[1] h == q.dim[2]
+      bs == Blocks(q)
+      D(key) == DIdx(q, key)
+      physSeq == SelectSeq(PhysOrder, LAMBDA k : k \in q.phys)
+      hasX5 == q.x5 \/ q.phys # {}
+      X5 == IF hasX5 THEN [j \in 1..5 |-> D(PhysOrder[j])] ELSE << >>
+      NoX5 == IF hasX5 THEN << -1, -1, -1, -1, -1 >> ELSE << >>
+      nameOK(ver, min) == IF ver >= min THEN q.name ELSE << >>
+      Tile(flags, data, x5, env, image, color) ==
+        [ kind |-> "tilemap", garbage |-> q.garbage, detail |-> q.detail, lv |-> q.tv, name |-> nameOK(q.tv, 3),
+          w |-> w, h |-> h, flags |-> flags, color |-> color, env |-> env, envoff |-> IF env = -1 THEN 0 ELSE 7,
+          image |-> image, data |-> data, x5 |-> x5, n |-> 0, ref |-> -1, legacy |-> FALSE ]
+      gameL == Tile(1, D("game"), NoX5, -1, -1, << 255, 255, 255, 255 >>)
+      physL == [j \in 1..Len(physSeq) |->
+                  Tile(PhysFlag(physSeq[j]), D("zero"),
+                       [i \in 1..5 |-> IF PhysOrder[i] = physSeq[j] THEN D(physSeq[j]) ELSE -1],
+                       -1, -1, << 255, 255, 255, 255 >>)]
+      tilesL == Tile(0, D("tiles"), NoX5, IF q.env THEN 0 ELSE -1, IF q.img THEN 0 ELSE -1, q.color)
+      quadsL == [ kind |-> "quads", garbage |-> q.garbage, detail |-> q.detail, lv |-> q.qv, name |-> nameOK(q.qv, 2),
+                  w |-> 0, h |-> 0, flags |-> 0, color |-> << >>, env |-> -1, envoff |-> 0,
+                  image |-> IF q.img THEN 1 ELSE -1, data |-> D("quads"), x5 |-> << >>, n |-> q.nq, ref |-> -1,
+                  legacy |-> FALSE ]
+      soundsL == [ kind |-> "sounds", garbage |-> q.garbage, detail |-> q.detail,
+                   lv |-> IF q.sl = "legacy" THEN 1 ELSE 2, name |-> q.name,
+                   w |-> 0, h |-> 0, flags |-> 0, color |-> << >>, env |-> -1, envoff |-> 0, image |-> -1,
+                   data |-> D("sources"), x5 |-> << >>, n |-> q.ns, ref |-> 0, legacy |-> q.sl = "legacy" ]
+      layers == << gameL >> \o physL \o << tilesL, quadsL >> \o (IF q.sl # "none" THEN << soundsL >> ELSE << >>)
+      nG == 1 + Len(physSeq)
+      evn == CASE q.ev = "1l" -> 1 [] q.ev = "1" -> 1 [] q.ev = "2" -> 2 [] q.ev = "3" -> 3
+      psize == IF evn = 3 THEN 22 ELSE 6
+      Env(ch, start, nm) == [ ev |-> evn, legacy |-> q.ev = "1l", channels |-> ch, start |-> start, num |-> q.npts,
+                              name |-> IF q.ev = "1l" THEN << >> ELSE nm, sync |-> 1 ]
+      Group(start, num, clip, nm, o, par) ==
+        [ gv |-> q.gv, ox |-> o, oy |-> (IF o = MINI THEN MAXI ELSE IF o = MAXI THEN MINI ELSE 3), px |-> par, py |-> par, start |-> start,
+          num |-> num, clip |-> IF q.gv >= 2 THEN clip ELSE << >>, name |-> nameOK(q.gv, 3) ]
+  IN [ version |-> 1,
+       info |-> [ author |-> D("author"), mapver |-> D("mapver"), credits |-> D("credits"),
+                  license |-> D("license"), sfield |-> q.info # "min", settings |-> D("settings") ],
+       images |-> << [ iv |-> q.imgv, w |-> 2, h |-> 2, ext |-> q.ext0, name |-> D("img0name"),
+                       data |-> D("img0pix"), variant |-> 1 ],
+                     [ iv |-> q.imgv, w |-> 1024, h |-> 1024, ext |-> TRUE, name |-> D("img1name"),
+                       data |-> -1, variant |-> 0 ] >>,
+       envs |-> << Env(4, 0, << 99, 111, 108 >>), Env(3, q.npts, NameFull \o NameFull \o << 1, 2, 3, 4, 5, 6, 7, 8, 9 >>) >>,
+       points |-> [j \in 1..(2 * q.npts) |-> [i \in 1..psize |-> IF i = 1 THEN 1000 * j ELSE IF i = 2 THEN j % 6 ELSE ((i * j) % 7) - 3]],
+       groups |-> << Group(0, nG, << >>, NameGame, 0, 100),
+                     Group(nG, Len(layers) - nG, IF q.clip THEN << -5, MAXI, 640, MINI >> ELSE << >>, q.name, q.off, 50) >>,
+       layers |-> layers,
+       sounds |-> IF q.sl # "none"
+                  THEN << [ name |-> D("snd0name"), data |-> D("snd0data"), size |-> 5 ] >> ELSE << >>,
+       data |-> [j \in 1..Len(SelectSeq(bs, LAMBDA x : x.on)) |-> SelectSeq(bs, LAMBDA x : x.on)[j].e],
+       gamegroup |-> 1 ]
+
+----------------------------------------------------------------------------
+(* corruptions of the laid-out map (always a well-formed datafile) *)
+
+SweepValsFull == {-2, -1, 0, 1, 2, 3, 4, 5, 6, 7, 8, 9, 10, 12, 15, 16, 17, 20, 21, 32, 64, 255, 256, MINI, MAXI}
+SweepValsMain == {-2, -1, 0, 1, 2, 3, 4, 8, 16, 20, 21, 32, 256, MINI, MAXI}
+SweepValsSmall == {-1, 0, 1, 2, 3, 256, MINI, MAXI}
 
 NoSweep == [kind |-> "none", k |-> 0, j |-> 0, x |-> 0, j2 |-> 0, x2 |-> 0]
 
-Sweeps ==
-  UNION { UNION { { [kind |-> "word", k |-> k, j |-> j, x |-> x, j2 |-> 0, x2 |-> 0]
-                    : x \in SweepVals \ {BaseItems[k].w[j]} }
-                  : j \in 1..Len(BaseItems[k].w) }
-          : k \in 1..Len(BaseItems) }
-  \cup UNION { { [kind |-> "trunc", k |-> k, j |-> n, x |-> 0, j2 |-> 0, x2 |-> 0]
-                 : n \in 0..(Len(BaseItems[k].w) - 1) }
-               : k \in 1..Len(BaseItems) }
-  \* every data block shortened to 0 bytes, 1 byte and by its last byte (a zero-length string,
-  \* settings block, image, tile array ... behind an otherwise unchanged, valid index)
-  \cup UNION { { [kind |-> "data", k |-> k, j |-> n, x |-> 0, j2 |-> 0, x2 |-> 0]
-                 : n \in {0, 1, Len(BaseData[k]) - 1} \cap 0..(Len(BaseData[k]) - 1) }
-               : k \in 1..Len(BaseData) }
-  \cup UNION { { [kind |-> "pair", k |-> p[1], j |-> p[2], x |-> x, j2 |-> p[3], x2 |-> x2]
-                 : x \in p[4], x2 \in p[5] }
-               : p \in Pairs }
+\* << type, id, word, word, values, values >>: group start x num; layer type x tilemap flags; tilemap
+\* version x flags; width x height; image external x data
+IdxVals == {-2, -1, 0, 1, 2, 3, 4, MINI, MAXI}
+PairList == << << 4, 0, 6, 7, IdxVals, IdxVals >>,
+               << 4, 1, 6, 7, IdxVals \cup {5, 6, 7, 8, 9}, IdxVals \cup {5, 6, 7, 8, 9} >>,
+               << 5, 1, 2, 7, {2, 3, 9, 10, 11}, {0, 1, 2, 4, 8, 16, 32, 3, 64} >>,
+               << 5, 1, 4, 7, {0, 1, 2, 3, 4}, {0, 1, 2, 4, 8, 16, 32, 3} >>,
+               << 5, 0, 4, 7, {0, 1, 2, 3, 4}, {0, 1, 2, 4, 8, 16, 32, 3} >>,
+               << 5, 0, 5, 6, {-1, 0, 1, 2, 3, 65536, MAXI}, {-1, 0, 1, 2, 3, 65536, MAXI} >>,
+               << 5, 1, 5, 6, {-1, 0, 1, 2, 4, MAXI}, {-1, 0, 1, 2, 4, MAXI} >>,
+               << 2, 0, 4, 6, {-1, 0, 1, 2, MINI}, IdxVals \cup {20, 21} >> >>
 
-ItemsOf(s) ==
-  Strict([k \in 1..Len(BaseItems) |->
-     IF k # s.k THEN BaseItems[k]
-     ELSE CASE s.kind = "word" -> [BaseItems[k] EXCEPT !.w[s.j] = s.x]
-            [] s.kind = "trunc" -> [BaseItems[k] EXCEPT !.w = SubSeq(@, 1, s.j)]
-            [] s.kind = "pair" -> [BaseItems[k] EXCEPT !.w[s.j] = s.x, !.w[s.j2] = s.x2]
-            [] OTHER -> BaseItems[k]])
+ItemIx(df, t, id) ==
+  LET hits == {k \in 1..Len(df.items) : df.items[k].t = t /\ df.items[k].id = id} IN
+  IF hits = {} THEN 0 ELSE CHOOSE k \in hits : TRUE
 
-DataOf(s) ==
-  IF s.kind = "data" THEN [BaseData EXCEPT ![s.k] = SubSeq(@, 1, s.j)] ELSE BaseData
+\* picks: an intermediate state per item / data block / pair family, so that the corruptions of
+\* one base are spread over TLC's workers (a pick state is not a case)
+Picks(df) ==
+  { [kind |-> "pick", k |-> k, j |-> 0, x |-> 0, j2 |-> 0, x2 |-> 0] : k \in 1..Len(df.items) }
+  \cup { [kind |-> "pick", k |-> k, j |-> 1, x |-> 0, j2 |-> 0, x2 |-> 0] : k \in 1..Len(df.data) }
+  \cup (IF Pairs THEN { [kind |-> "pick", k |-> n, j |-> 2, x |-> 0, j2 |-> 0, x2 |-> 0] : n \in 1..Len(PairList) }
+        ELSE {})
 
-DfOf(s) == [types |-> BaseTypes, items |-> ItemsOf(s), data |-> DataOf(s)]
+ItemSweeps(df, k, vals) ==
+  UNION { { [kind |-> "word", k |-> k, j |-> j, x |-> x, j2 |-> 0, x2 |-> 0]
+            : x \in vals \ {df.items[k].w[j]} }
+          : j \in 1..Len(df.items[k].w) }
+  \cup { [kind |-> "trunc", k |-> k, j |-> n, x |-> 0, j2 |-> 0, x2 |-> 0]
+         : n \in 0..(Len(df.items[k].w) - 1) }
 
-Init == v \in Versions /\ sw = NoSweep
-Next == sw = NoSweep /\ sw' \in Sweeps /\ UNCHANGED v
+\* a data block shortened to 0 bytes, 1 byte and by its last byte, and its last byte changed
+DataSweeps(df, k) ==
+  { [kind |-> "data", k |-> k, j |-> n, x |-> 0, j2 |-> 0, x2 |-> 0]
+    : n \in {0, 1, Len(df.data[k]) - 1} \cap 0..(Len(df.data[k]) - 1) }
+  \cup (IF Len(df.data[k]) = 0 THEN {}
+        ELSE { [kind |-> "dbyte", k |-> k, j |-> Len(df.data[k]), x |-> x, j2 |-> 0, x2 |-> 0]
+               : x \in {0, 47, 255} \ {df.data[k][Len(df.data[k])]} })
+
+PairSweeps(df, n) ==
+  LET q == PairList[n]
+      k == ItemIx(df, q[1], q[2])
+  IN IF k = 0 THEN {} ELSE IF Len(df.items[k].w) < q[4] THEN {}
+     ELSE { [kind |-> "pair", k |-> k, j |-> q[3], x |-> x, j2 |-> q[4], x2 |-> x2] : x \in q[5], x2 \in q[6] }
+
+SweepsOf(df, pick, vals) ==
+  CASE pick.j = 0 -> ItemSweeps(df, pick.k, vals)
+    [] pick.j = 1 -> DataSweeps(df, pick.k)
+    [] OTHER -> PairSweeps(df, pick.k)
+
+ApplySweep(df, s) ==
+  CASE s.kind = "word" -> [df EXCEPT !.items[s.k].w[s.j] = s.x]
+    [] s.kind = "trunc" -> [df EXCEPT !.items[s.k].w = SubSeq(@, 1, s.j)]
+    [] s.kind = "pair" -> [df EXCEPT !.items[s.k].w[s.j] = s.x, !.items[s.k].w[s.j2] = s.x2]
+    [] s.kind = "data" -> [df EXCEPT !.data[s.k] = SubSeq(@, 1, s.j)]
+    [] s.kind = "dbyte" -> [df EXCEPT !.data[s.k][s.j] = s.x]
+    [] OTHER -> df
+
+----------------------------------------------------------------------------
+IsBase == \E n \in 1..Len(BaseProfiles) : p = BaseProfiles[n]
+
+Init == /\ v \in Versions
+        /\ sw = NoSweep
+        /\ p \in (IF Variants THEN UNION {VariantsOf(BaseProfiles[n]) : n \in 1..Len(BaseProfiles)}
+                  ELSE {BaseProfiles[n] : n \in 1..Len(BaseProfiles)})
+
+Next == /\ IsBase
+        /\ SweepLevel > 0
+        /\ LET df == MapDf(MkMap(p)) IN
+           \/ sw = NoSweep /\ sw' \in Picks(df)
+           \/ sw.kind = "pick"
+              /\ sw' \in SweepsOf(df, sw, IF SweepLevel >= 2 THEN SweepValsFull
+                                        ELSE IF p = BaseProfiles[1] THEN SweepValsMain ELSE SweepValsSmall)
+        /\ UNCHANGED << v, p >>
+
 Spec == Init /\ [][Next]_vars
 
-\* Every generated file is a well-formed datafile with exactly the swept content: the law is
-\* evaluated on the base map and on every truncation (the word sweeps change content only).
+\* what is exported as expectation: the item accessors always; the data accessors and the item
+\* structs on everything for an uncorrupted map, otherwise only for the corrupted block / item
+\* (they are functions of that block / item alone)
 Emit ==
-  LET df == DfOf(sw)
+  sw.kind = "pick" \/
+  LET T == MkMap(p)
+      df0 == MapDf(T)
+      df == ApplySweep(df0, sw)
       L == Layout(v, df)
-  IN /\ sw.kind \in {"none", "trunc", "data"} =>
+      R == RofDf(df)
+      ic == Strict(ItemCalls(R))
+      dc == IF sw.kind = "none" THEN Concat([d \in 1..ND(R) |-> DataCalls(R, d - 1)])
+            ELSE IF sw.kind \in {"data", "dbyte"} THEN DataCalls(R, sw.k - 1) ELSE << >>
+      pc == IF sw.kind = "none" THEN Parts(R)
+            ELSE IF sw.kind \in {"word", "trunc", "pair"} THEN PartsOfItem(R, sw.k - 1) ELSE << >>
+      cs == ic \o dc
+      wf == sw.kind = "none"
+      valid == MapValidFrom(R, ic)
+  IN /\ wf => (StoredAgree(T, cs) /\ valid)
+     /\ \A j \in 1..Len(cs) : cs[j].out \in {"ok", "err"}
+     /\ sw.kind \in {"none", "trunc", "data"} =>
           LET B == FileBytes(L)
-              R == Read(B, << >>)
-          IN /\ R.open = "ok" /\ R.items = df.items /\ ValidDoc(B, << >>)
-             /\ \A k \in 1..Len(df.data) : R.data[k] = [r |-> "ok", b |-> df.data[k]]
-     /\ PrintT(<< "M", ToJson([kind |-> "map", v |-> v, sw |-> sw, L |-> L]) >>)
+              RR == Read(B, << >>)
+          IN /\ RR.open = "ok" /\ RR.items = df.items /\ RR.types = R.types /\ RR.ranges = R.ranges
+             /\ RR.data = R.data /\ ValidDoc(B, << >>)
+     /\ PrintT(<< "M", ToJson([kind |-> "map", v |-> v, p |-> p, sw |-> sw, wf |-> wf, valid |-> valid, L |-> L,
+                                exp |-> cs, parts |-> pc]) >>)
 =============================================================================
